@@ -25,6 +25,15 @@ def main():
     if os.path.exists(os.path.join(src, "notes.md")):
         shutil.copy(os.path.join(src, "notes.md"), dst)
     meta = dict(property=pids.split(",")[0], checks_run=pids.split(","), repo_head=head[:7])
+    try:
+        info = json.load(open("/verif/tools/seed_info.json")).get(name, {})
+        meta["change"] = info.get("change")
+        meta["needs_to_manifest"] = info.get("needs")
+    except Exception:
+        pass
+    meta["how_confirmed"] = ("tools/seedtest.py: scratch worktree of /repo HEAD; demo.py run without the patch (must exit 0) and "
+                             "with it (must exit non-zero); full test suite with the patch (must pass); then the listed checks' "
+                             "quick tier with VERIF_REPO pointing at the patched worktree")
     r = sh(["/venv/bin/python", os.path.join(dst, "demo.py")], env=env, cwd=WT, timeout=300)
     meta["demo_clean"] = dict(rc=r.returncode, tail=r.stdout.strip().splitlines()[-1:] )
     a = sh(["git", "-C", WT, "apply", os.path.join(dst, "patch.diff")])
